@@ -223,6 +223,21 @@ claim('C16',
       'DESIGN.md section 4 C16')
 
 
+claim('C18',
+      'Pipeline.tla states the name-table contract between the four artefacts and the centroid claim on top of '
+      'Election.tla; TLC proves the centroid lemma (premise => the own leaf is the unique nearest centroid in the '
+      'election semantics bound by C02) exhaustively for small vectors and that the premise is tight; generated '
+      'references go through the four real stages chained and the centroid query, written by the harness from '
+      'the cells it generated, is mapped for six bootstrap factors; Pipeline_Trace evaluates the premise exactly '
+      'on the logged draws and requires lineage, votes = B, correlation = 1 wherever it holds, and validates the '
+      'artefact name tables (leaves, genes in order, every leaf pair once, parents, selected genes).',
+      'Trusted: TLC, the harness generator (integer log2(CPM+1) values so that sums are exact), 1e-9 on the '
+      'reported correlation. Node visits where the premise fails (one drawn gene, perfectly correlated sibling) '
+      'are outside the claim and counted. Single-node top levels are not generated (finding F10, C01).',
+      'TLA+ lemma by exhaustive TLC + trace validation of chained real stages with exact premise evaluation',
+      'DESIGN.md section 4 C18')
+
+
 def build():
     props = [json.loads(l) for l in open(ROOT / 'properties.jsonl')]
     checks = []
